@@ -28,14 +28,14 @@ TTL_CHOICES = [1, 120, 1125, 1200, 2000, 4500, 9000]
 
 def floors(tier):
     q = tier == "quick"
-    return {"c10.startup": 300 if q else 30000, "c10.spacing": 1000 if q else 100000, "c10.justified": 1000 if q else 100000, "c10.liveness": 500 if q else 50000}
+    return {"c10.startup": 3000 if q else 300000, "c10.spacing": 15000 if q else 1500000, "c10.justified": 15000 if q else 1500000, "c10.liveness": 5000 if q else 500000}
 
 
 def plan(tier, seed):
     if tier == "quick":
-        n, per = 16, 30
+        n, per = 16, 300
     else:
-        n, per = 64, 900
+        n, per = 64, 9000
     return [{"seed": seed, "shard": i, "per": per, "tier": tier} for i in range(n)]
 
 
